@@ -1,9 +1,29 @@
-(* Props/C03.v — placeholder until Proofs/Join*.v land *)
+(* Props/C03.v — C03: streaming join maps equal the relational join for every chunk size.
+   Statements only; proofs are in Proofs/Join*.v. *)
 From Coq Require Import ZArith List.
-From EV Require Import Res Arr Join JoinSpec.
+From EV Require Import Res Arr Join JoinSpec JoinBase JoinIface JoinDriver JoinMain.
 Import ListNotations.
 Open Scope Z_scope.
 
-Theorem c03_smoke : streamed (mkvar KGen true) [1;1;2;3] [1;2;2;5] (-1) 3 = Ok ([0;1;2;2;3], [0;0;1;2;-1]).
-Proof. vm_compute. reflexivity. Qed.
-Print Assumptions c03_smoke.
+(* Both key columns strictly increasing (the uniqueness both *_both_unique variants assume):
+   for EVERY chunk size >= 1 the streamed left-join / inner-join maps are exactly the relational
+   join; no error, no out-of-bounds access (the model's OOB), no fuel exhaustion (termination). *)
+Theorem c03_both_unique_correct : forall is_left L R inv cs,
+  1 <= cs -> ssorted L -> ssorted R ->
+  streamed (mkvar KBU is_left) L R inv cs = Ok (expected KBU is_left inv L R).
+Proof. exact streamed_both_unique_correct. Qed.
+Print Assumptions c03_both_unique_correct.
+
+(* chunking is unobservable (both-unique variants) *)
+Theorem c03_both_unique_chunking_unobservable : forall is_left L R inv cs1 cs2,
+  1 <= cs1 -> 1 <= cs2 -> ssorted L -> ssorted R ->
+  streamed (mkvar KBU is_left) L R inv cs1 = streamed (mkvar KBU is_left) L R inv cs2.
+Proof.
+  intros. rewrite !streamed_both_unique_correct by assumption. reflexivity.
+Qed.
+Print Assumptions c03_both_unique_chunking_unobservable.
+
+Example c03_both_unique_nonvacuous :
+  ssorted [1;3;5;7] /\ ssorted [0;3;4;7;9] /\
+  streamed (mkvar KBU true) [1;3;5;7] [0;3;4;7;9] (-1) 2 = Ok ([], [-1;1;-1;3]).
+Proof. repeat split; try (apply ssortedb_ssorted; reflexivity). Qed.
